@@ -149,6 +149,7 @@ let reason_text (r : n) : string =
   | 7 -> "store-after-session-not-what-the-dialogue-entitles"
   | 8 -> "reply-count"
   | 9 -> "unterminated-multiline-reply"
+  | 10 -> "login-count-not-the-mailbox"
   | k -> "reason-" ^ string_of_int k
 
 let () =
